@@ -145,7 +145,7 @@ def run(tier, seed):
     for s_ in range(seed, seed + (1 if not th else 3)):
         for z in zoo.ZOO:
             name, pf, pr, tg = z(s_)
-            iv = '4h' if name in ('coarse', 'periodic', 'periodic_duration') else '2h'
+            iv = '4h' if name in ('coarse', 'coarse_window', 'periodic', 'periodic_duration') else '2h'
             sel = dict(check='assembly_trace', family='split_interval', portfolio=name)
             try:
                 with quiet():
